@@ -227,6 +227,27 @@ def gen_cases(rng, tier, k):
                     cases.append((ops + ["chk %d" % d], "edges:filtration-order"))
                 else:
                     cases.append((ops + ["mfnd", "chk %d" % d], "edges:random-order+mfnd"))
+        # mixed route: part of the graph in one shot (insert_graph + expansion), the remaining edges one by one afterwards
+        # (the node lists by label must know the simplices the one-shot expansion created)
+        for _ in range(500 if thorough else 60):
+            v, e = gen_graph(rng, contig, zero, nmax=8, mono=True)
+            seen, es = set(), []
+            for (a, b, w) in e:
+                kk = (min(a, b), max(a, b))
+                if kk not in seen:
+                    seen.add(kk)
+                    es.append((a, b, w))
+            if len(es) < 2:
+                continue
+            d = rng.choice([2, 2, 3, 3, 4, 6])
+            # within the domain of insert_edge_as_flag: the earlier part is already the flag complex of dimension d and the
+            # remaining edges come in non-decreasing order of their values
+            es.sort(key=lambda t: t[2])
+            cut = rng.randint(1, len(es) - 1)
+            first, rest = es[:cut], es[cut:]
+            d1 = d
+            ops = [graph_line(v, first), "exp %d" % d1] + ["edge %d %d %d %d" % (a, b, w, d) for (a, b, w) in rest]
+            cases.append((ops + ["mfnd", "chk %d" % d], "mixed:one-shot-then-edges"))
     return cases
 
 
